@@ -58,8 +58,8 @@ static void discoverOwned(const Cfg& c) {
 static bool skipClass(const Cfg& c, const Expect& e) {
   string cls = e.cls;
   // classes whose text form the statement does not call lossless
-  if (cls == "nonprintable" || cls == "partial-null" || cls == "unlisted" || cls == "listed-replacement" ||
-      cls == "partial-replacement") return true;
+  if (cls == "nonprintable" || cls.compare(0, 12, "partial-null") == 0 || cls == "unlisted" ||
+      cls == "listed-replacement" || cls == "partial-replacement") return true;
   if (c.fs.t->kind == rc::K_WDAY && cls == "out-of-range") return true;
   // divisor beyond the 24 bit exactness limit of the float arithmetic (statement: quantifier)
   if (e.numeric && e.relTol) return true;
@@ -191,8 +191,9 @@ static void evalRaw(const Cfg& c, const uint8_t* raw, int n, FmSet) {
 }
 
 // ---- (b) text -> encode -> decode -> encode ---------------------------------------------------------
-static string textTrip(const Cfg& c, const string& text, bool log, string* detail) {
+static string textTrip(const Cfg& c, const string& text, bool log, string* detail, string* bcls) {
   const TypeSpec& t = *c.fs.t;
+  *bcls = "";
   vector<uint8_t> b1, b2;
   string t2;
   int rc1 = I.encode(c, text, &b1);
@@ -215,6 +216,7 @@ static string textTrip(const Cfg& c, const string& text, bool log, string* detai
   {
     // classes the statement leaves open are recognised on the produced bytes
     Expect e = rc::refDecode(c.fs, b1.data(), static_cast<int>(b1.size()));
+    *bcls = e.cls;  // class of the produced bytes
     bool valueAdmitted = !e.texts.empty() || e.numeric || e.ieee;
     if (skipClass(c, e) || (!e.dontcare && !valueAdmitted && !e.okNull)) {
       g_cnt["b_open_class_skipped"]++;
@@ -358,9 +360,10 @@ static void evalText(const Cfg& c, const string& text, const string& tcls0) {
   R.evaluations++;
   R.tracesValidated++;
   if (R.distinctSet.size() < DISTINCT_CAP) R.distinct(vp::fnv(text, vp::fnv(c.key(), 99)));
-  string rule = textTrip(c, text, false, &detail);
+  string bcls;
+  string rule = textTrip(c, text, false, &detail, &bcls);
   if (rule.empty()) return;
-  string sig = "C06/" + rule + "/" + c.fs.t->name + "/" + tcls;
+  string sig = "C06/" + rule + "/" + c.fs.t->name + "/" + tcls + (bcls.empty() ? "" : "," + bcls);
   if (c.fs.div > 1) sig += ",div";
   else if (c.fs.div < 0) sig += ",mul";
   if (c.listId) sig += ",list";
@@ -490,7 +493,8 @@ static int replay(const string& cs) {
   string rule;
   if (k == "txt") {
     vector<uint8_t> tx = bytesOf(m["tx"]);
-    rule = textTrip(c, string(tx.begin(), tx.end()), true, &detail);
+    string bcls;
+    rule = textTrip(c, string(tx.begin(), tx.end()), true, &detail, &bcls);
   } else {
     discoverOwned(c);
     vector<uint8_t> raw = bytesOf(m["raw"]);
